@@ -4,6 +4,8 @@ use super::*;
 use std::format;
 use std::string::String;
 
+pub type RfConfigAlias = RfConfig;
+
 pub fn next_fcnt_down(last: Option<u32>, wire: u16) -> Option<u32> {
     session::verif_next_fcnt_down(last, wire)
 }
